@@ -44,12 +44,18 @@ def c08_2(ctx):
         a = n.ast
         if isinstance(a, ast.Assign) and ra.reachable(n.id):
             txt = ast.unparse(a.value)
-            if "int_to_big_endian(%s, 4)" % p in txt:
-                if ".secret" in txt:
-                    hard = hard.union(ra.at(n.id, p))
-                elif ".sec()" in txt:
-                    norm_ = norm_.union(ra.at(n.id, p))
+            # the key material of the HMAC data: 00‖ser256(k) (33-byte big-endian secret) or serP(K) (sec of the point),
+            # whether or not the 4-byte index is appended in the same statement
+            is_hard = any(isinstance(c, ast.Call) and call_name(c) == "int_to_big_endian" and len(c.args) == 2 and ".secret" in ast.unparse(c.args[0])
+                          and Folder(ctx.repo, mod.name).fold(c.args[1]) == 33 for c in ast.walk(a.value))
+            is_norm = ".sec()" in txt and not is_hard
+            if is_hard:
+                hard = hard.union(ra.at(n.id, p))
+            elif is_norm:
+                norm_ = norm_.union(ra.at(n.id, p))
     out = []
+    if hard.is_empty() and norm_.is_empty():
+        raise AnalysisError("%s: neither the hardened (00‖secret) nor the normal (sec) HMAC key material was found" % spec)
     if hard == ISet.range(HARDENED, None):
         out.append(ctx.ok(spec, "hardened data (00‖k‖i) is used exactly for indexes %s" % hard.describe(NAMES), fn, mod, key="hardened-tile"))
     else:
@@ -206,7 +212,13 @@ def c08_6(ctx):
     # per iteration: child() not reachable from the body entry on the bad edge
     from sa.cfg import reach_ps
     bad_reach = False
+    dom = cfg.dominators()
     for g in guards:
+        # the same predicate tested again below a guard that already left on the hardened edge is not a second decision
+        twin = [h for h in guards if h is not g and ast.unparse(h.node.ast) == ast.unparse(g.node.ast) and h.node.id in dom.get(g.node.id, ())
+                and not (cfg.reach([b for b, l in cfg.succ[h.node.id] if l != h.pass_label]) & {tg.id})]
+        if twin:
+            continue
         r, p = reach_ps(cfg, [g.node.id], removed={(g.node.id, g.pass_label)}, targets=[tg.id])
         if p and not any(x[0] == loops[0].head for x in p[1:]):
             bad_reach = True
